@@ -217,7 +217,9 @@ def run_config(chk, config):
         kn = [x for x in xs if x["known_digest"]]
         bad = [x for x in kn if not (x["kind"] in ("first", "chain") and x["aligned"] and x["j"] == (0, 15))]
         kinds = set(x["kind"] for x in kn)
-        need = {"first", "chain"} if not unk else {"first"}
+        # (with keys carried from somewhere else - a previous round, a stored list - which XOR is "the first block's" cannot be
+        # told from the digest: nothing is required of the known ones beyond being well formed)
+        need = {"first", "chain"} if not unk else (set() if not kn else {"first"} & set(x["kind"] for x in kn))
         chk.oblig(not bad and kinds >= need, "xor | %s" % name,
                   "%s: XOR is not buffer[block start + j] ^= digest_of_that_block[j], j in 0..16: %s" % (name, [(x["kind"], x["base"], x["aligned"], x["j"]) for x in bad][:2]),
                   {"rule": "data index - block start = key index, j over exactly 0..16, digest of that block's key"},
